@@ -129,15 +129,15 @@ def canon_lines(lines):
     out = []
     run = []
     for l in lines:
-        if l.startswith("G ") or l.startswith("T "):
+        if l.startswith("G ") or l.startswith("G2 ") or l.startswith("T "):
             run.append(l)
         else:
             if run:
-                out += [x for x in run if x.startswith("G ")] + [x for x in run if x.startswith("T ")]
+                out += [x for x in run if x.startswith(("G ", "G2 "))] + [x for x in run if x.startswith("T ")]
                 run = []
             out.append(l)
     if run:
-        out += [x for x in run if x.startswith("G ")] + [x for x in run if x.startswith("T ")]
+        out += [x for x in run if x.startswith(("G ", "G2 "))] + [x for x in run if x.startswith("T ")]
     return out
 
 
